@@ -162,7 +162,6 @@ _reg(UTIL, "u_pass_sv", U + "pass_sv", "the lexeme itself")
 _reg(UTIL, "u_first_sv_char", U + "first_sv_char", "the first byte of the lexeme")
 _reg(UTIL, "u_find_char", U + "find_char", "position of c in the terminated string, not counting the terminator; else 'not found'")
 _reg(UTIL, "u_str_equal", U + "str_equal", "both null or byte-wise equal up to and including the terminator")
-_reg(UTIL, "u_find_str", U + "find_str", "index of the first table entry equal to the string; throws when there is none")
 _reg(UTIL, "opt_set_skip_whitespace", "ctpg::parse_options::set_skip_whitespace", "stores the flag, returns the options")
 _reg(UTIL, "opt_set_skip_newline", "ctpg::parse_options::set_skip_newline", "stores the flag, returns the options")
 _reg(UTIL, "opt_set_verbose", "ctpg::parse_options::set_verbose", "stores the flag, returns the options")
@@ -200,7 +199,6 @@ _reg(GAPI2, "ctor_rule4", "ctpg::detail::rule::rule", "functor, left, right, pre
 _reg(GAPI2, "ctor_rule2", "ctpg::detail::rule::rule", "no functor, left, right, precedence 0", nparams=2)
 _reg(GAPI2, "ctor_term_value", "ctpg::term_value::term_value", "moves the value in, stores the source point", nparams=2)
 _reg(GAPI2, "ctor_recognized_term", "ctpg::recognized_term::recognized_term", "term index and length", nparams=2)
-_reg(GAPI2, "ctor_dfa_state", R + "dfa_state::dfa_state", "all transitions and priority slots uninitialised")
 _reg(GAPI2, "ctor_char_range", R + "char_range::char_range", "start and end", nparams=2)
 _reg(GAPI2, "ctor_parse_state", "ctpg::detail::parse_state::parse_state", "binds the stacks, stream and reductors; position at the "
      "beginning, no pending term, normal mode")
